@@ -51,6 +51,16 @@ class Bada3AircraftParameters(BaseAircraftParameters):
     cas_cruise_hi: float | None = None
     cas_cruise_mach: float | None = None
 
+    def __getitem__(self, key: str):
+        """
+        Allows dictionary-style read access to the parameters (the engine
+        models use both `parameters.c_f1` and `parameters['c_f1']`).
+        """
+        try:
+            return getattr(self, key)
+        except AttributeError:
+            raise KeyError(key) from None
+
     def assign_parameters_fromdict(self, parameters: dict):
         """
         Assigns the parameters from a dictionary.
